@@ -77,8 +77,17 @@ def handle (cfp : Bytes → Bool) (equalFold : Bytes → Bytes → Bool) (canon 
       match lookup root p with
       | some (.file _ _ c _) => (c, none)
       | _ => ([], some "open")
+    -- only the ROOT go.mod is ever parsed for its go version; its flag was derived from what is on disk (a file whose
+    -- reported size exceeds its content is padded with NUL bytes there, which makes the parse fail), so it is looked up
+    -- by path first: another file with the same content may carry another flag
     let pgv : Bytes → Bytes → Bytes := fun _ data =>
-      if data == ge124Marker || fs.any (fun f => f.content == data && f.goGe124) then B "go1.24" else B "go1.0"
+      let byRoot := match fs.find? (fun f => f.path == B "go.mod") with
+        | some f => if f.content == data then some f.goGe124 else none
+        | none => none
+      let ge := match byRoot with
+        | some b => b
+        | none => fs.any (fun f => f.content == data && f.goGe124)
+      if data == ge124Marker || ge then B "go1.24" else B "go1.0"
     let total := (fs.map fun f => f.path.length).sum
     let fuel := 8 * total + 8 * fs.length + 64
     (walkRoot, osReadFile, osLstat, osOpenRead, pgv, fuel)
